@@ -366,6 +366,31 @@ def known_class(case_text, impl_lines, model_lines, diff):
     if "(spec fallback)" not in case_text:
         if ("(spec kleene)" in case_text or "(spec diverge)" in case_text) and participant_validated(step):
             return "cycle_participant_validated_on_incomplete_edges"
+        if "(spec diverge)" in case_text:
+            # E (non-monotone bodies only): the final value of a fixpoint member was forced by the
+            #    cycle_fn (join / iteration cap), i.e. it is NOT what its body returns for its
+            #    dependencies' final values.  When a write removes the cycle, the member re-executes
+            #    outside any cycle and returns a different value, but its changed_at is the maximum
+            #    over its (unchanged, backdated) dependencies and does not move past its old
+            #    verified_at: dependents are validated with the stale value.
+            vals = _ghost_values(model_lines)
+            prev, prev_vals = {}, {}
+            for i in sorted(a["R"]):
+                if i > step:
+                    break
+                memos = parse_memos(a["S"].get(i, ""))
+                for e in a["E"].get(i, "").split():
+                    t, rest = e.split(":", 1)
+                    if t != "x" or int(rest.split(".")[0]) not in (FIX, FIXJOIN):
+                        continue
+                    pm, nm = prev.get(rest), memos.get(rest)
+                    if not pm or not nm or pm["hv"] != "1" or not pm["final"]:
+                        continue
+                    ov, nv = prev_vals.get(rest), vals.get(i, {}).get(rest)
+                    if nm["final"] and not nm["heads"] and ov is not None and nv is not None and ov != nv \
+                            and nm["ch"] <= pm["ver"]:
+                        return "forced_cycle_value_change_not_propagated"
+                prev, prev_vals = memos, vals.get(i, {})
         return None
     vals = _ghost_values(model_lines)
     cyc = {}
